@@ -149,10 +149,22 @@ type call struct {
 	innerEnd   int // accept: harness listener's Accept decided
 	innerOK    bool
 	wait       chan *hConn
+	failKind   string // why the inner Accept failed: transient | closed | closed-late
+	failErr    error
 	err        error
 	retConn    int // id of the connection that Accept returned to the actor
 	parkedAtQ  bool
 }
+
+// errTransient is what a harness listener returns from Accept when the
+// schedule injects a temporary failure; the listener stays open.
+type transientErr struct{}
+
+func (transientErr) Error() string   { return "c18: injected temporary accept failure" }
+func (transientErr) Timeout() bool   { return false }
+func (transientErr) Temporary() bool { return true }
+
+var errTransient net.Error = transientErr{}
 
 type hAddr struct{ id int }
 
@@ -205,6 +217,8 @@ type hListener struct {
 
 	closeBegunByPlan bool // controller only
 
+	failLate bool // guarded by m.mu: Close leaves pending inner accepts to failPending
+
 	// guarded by m.mu
 	closed     bool
 	closeBegun int // log index of the first limited Close begin, -1
@@ -230,6 +244,7 @@ func (l *hListener) Accept() (net.Conn, error) {
 	m.noteN()
 	if l.closed {
 		c.innerEnd = m.add("inner-accept-err", c, l.idx, 0, "listener closed")
+		c.failKind = "closed"
 		m.pending--
 		m.mu.Unlock()
 		return nil, net.ErrClosed
@@ -250,7 +265,13 @@ func (l *hListener) Accept() (net.Conn, error) {
 	m.mu.Unlock()
 	hc, ok := <-c.wait
 	if !ok || hc == nil {
-		return nil, net.ErrClosed
+		m.mu.Lock()
+		err := c.failErr
+		m.mu.Unlock()
+		if err == nil {
+			err = net.ErrClosed
+		}
+		return nil, err
 	}
 	return hc, nil
 }
@@ -264,13 +285,41 @@ func (l *hListener) Close() error {
 		return net.ErrClosed
 	}
 	l.closed = true
+	if l.failLate {
+		// The pending inner accepts notice the close later (failPending): an
+		// Accept of a real listener may return any time after Close.
+		return nil
+	}
 	for _, w := range l.waiters {
 		w.innerEnd = m.add("inner-accept-err", w, l.idx, 0, "listener closed")
+		w.failKind = "closed"
+		w.failErr = net.ErrClosed
 		m.pending--
 		close(w.wait)
 	}
 	l.waiters = nil
 	return nil
+}
+
+// failPending makes the oldest pending inner Accept of l return an error: a
+// temporary one while l is open, net.ErrClosed if l has been closed.
+func (m *monitor) failPending(l *hListener) {
+	m.mu.Lock()
+	defer m.mu.Unlock()
+	if len(l.waiters) == 0 {
+		m.add("fail-pending-nobody", nil, l.idx, 0, "")
+		return
+	}
+	w := l.waiters[0]
+	l.waiters = l.waiters[1:]
+	if l.closed {
+		w.failKind, w.failErr = "closed-late", net.ErrClosed
+	} else {
+		w.failKind, w.failErr = "transient", errTransient
+	}
+	w.innerEnd = m.add("inner-accept-err", w, l.idx, 0, w.failKind)
+	m.pending--
+	close(w.wait)
 }
 
 type monitor struct {
@@ -429,11 +478,13 @@ type mstate struct {
 }
 
 type mev struct {
-	Adm  bool   `json:"admit"`
-	Opt  bool   `json:"only_if_accepting,omitempty"`
-	Lo   int    `json:"lo"`
-	Hi   int    `json:"hi"`
-	Desc string `json:"desc"`
+	Failed string `json:"failed_pending_accept,omitempty"` // release caused by a failing inner Accept: its kind
+	L      int    `json:"l"`
+	Adm    bool   `json:"admit"`
+	Opt    bool   `json:"only_if_accepting,omitempty"`
+	Lo     int    `json:"lo"`
+	Hi     int    `json:"hi"`
+	Desc   string `json:"desc"`
 }
 
 func explore(pre []mstate, evs []mev, stop, resume int) (finals []mstate) {
@@ -519,6 +570,7 @@ type action struct {
 	Times      int    `json:"times,omitempty"`
 	Concurrent bool   `json:"concurrent,omitempty"`
 	PreDial    bool   `json:"predial,omitempty"`
+	FailLate   bool   `json:"pending_accepts_fail_later,omitempty"`
 }
 
 type features struct {
@@ -575,7 +627,11 @@ type sched struct {
 	midClose      bool
 	acceptOnClose bool
 	roundsLeft    int
-	suspects      []int // accepts that returned ErrClosed without having been admitted
+	gaugeOff      bool
+	relFailed     int     // releases of this round caused by a failing inner Accept
+	relOther      int     // other releases of this round
+	prevParked    []*call // waiters on open listeners at the previous quiescent point
+	suspects      []int   // accepts that returned ErrClosed without having been admitted
 	quiescentPts  int
 }
 
@@ -646,6 +702,7 @@ func (s *sched) runRound(acts ...action) {
 		return
 	}
 	s.rounds = append(s.rounds, acts)
+	s.relFailed, s.relOther = 0, 0
 	s.r.Bucket("limiter_rounds", 1)
 	if len(acts) > 1 {
 		s.feat.concRound = true
@@ -659,6 +716,9 @@ func (s *sched) runRound(acts ...action) {
 		case "dial":
 			dialWG.Add(1)
 			go func(l *hListener) { defer dialWG.Done(); <-start; s.m.dial(l) }(s.ls[a.L])
+		case "fail-pending":
+			dialWG.Add(1)
+			go func(l *hListener) { defer dialWG.Done(); <-start; s.m.failPending(l) }(s.ls[a.L])
 		case "accept":
 			if a.PreDial {
 				s.m.dial(s.ls[a.L])
@@ -692,6 +752,9 @@ func (s *sched) runRound(acts ...action) {
 				go s.doClose(cs, w, start)
 			}
 		case "listener-close":
+			s.m.mu.Lock()
+			s.ls[a.L].failLate = a.FailLate
+			s.m.mu.Unlock()
 			c := s.m.newCall(kLClose, a.L, 0)
 			spawned = append(spawned, c)
 			go s.doLClose(c, start)
@@ -845,8 +908,16 @@ func (s *sched) collect(upTo int) (evs, hyp []mev) {
 			if hi < 0 {
 				hi = len(m.log)
 			}
-			evs = append(evs, mev{Adm: false, Lo: c.innerEnd, Hi: hi, Desc: fmt.Sprintf("release pending accept#%d (listener l%d closed)", c.ID, c.L)})
-			r.Bucket("limiter_pending_accepts_failed_by_listener_close", 1)
+			kind := c.failKind
+			if kind == "" {
+				kind = "closed"
+			}
+			evs = append(evs, mev{Adm: false, Failed: kind, L: c.L, Lo: c.innerEnd, Hi: hi, Desc: fmt.Sprintf("release pending accept#%d on l%d: inner Accept failed (%s)", c.ID, c.L, kind)})
+			if kind == "transient" {
+				r.Bucket("limiter_pending_accepts_failed_by_transient_error", 1)
+			} else {
+				r.Bucket("limiter_pending_accepts_failed_by_listener_close", 1)
+			}
 		}
 		if c.end >= s.lastQ && c.end < upTo {
 			l := s.ls[c.L]
@@ -972,6 +1043,33 @@ func (s *sched) settle() {
 		pre := s.F
 		s.F = finals
 		s.lastQ = l1
+		var failedEv *mev
+		for i := range evs {
+			switch {
+			case evs[i].Adm:
+			case evs[i].Failed != "":
+				s.relFailed++
+				failedEv = &evs[i]
+			default:
+				s.relOther++
+			}
+		}
+		// coverage: a pending accept of listener A failed while accepts were
+		// parked on another listener, and that release made the limiter resume
+		if failedEv != nil && s.relFailed == 1 && s.relOther == 0 && len(pre) == 1 && !pre[0].Acc && pre[0].Count-1 <= s.Resume {
+			m.mu.Lock()
+			elsewhere := 0
+			for _, c := range s.prevParked {
+				if c.L != failedEv.L && s.ls[c.L].closeBegun < 0 {
+					elsewhere++
+				}
+			}
+			m.mu.Unlock()
+			if elsewhere > 0 {
+				r.Bucket("limiter_failed_pending_accept_resumed_limiter_with_waiters_elsewhere", 1)
+				r.Bucket("limiter_failed_pending_accept_resumed_limiter_with_waiters_elsewhere_"+failedEv.Failed, 1)
+			}
+		}
 
 		// (3) closing a listener releases its waiters
 		if len(wClosed) > 0 {
@@ -991,12 +1089,16 @@ func (s *sched) settle() {
 			s.abandon("accounting")
 			return
 		}
-		if g := s.gaugeSum(); g != float64(truth) {
+		// The published gauge of "active stream connections": the limiter's
+		// counter covers open connections and pending accepts; a gauge that
+		// counts only the open ones is as good.  Anything outside is a slot
+		// released twice or never.  The schedule goes on (the ground truth does
+		// not depend on the gauge).
+		if g := s.gaugeSum(); !s.gaugeOff && (g < float64(truth-pend) || g > float64(truth)) {
 			r.Violation("limiter:active-gauge-differs-from-open-plus-pending",
-				fmt.Sprintf("at a quiescent point the limiter's active-connections gauge is %v, open+pending is %d", g, truth),
-				s.witness(map[string]any{"gauge": g, "truth": truth}))
-			s.abandon("gauge")
-			return
+				fmt.Sprintf("at a quiescent point the limiter's active-connections gauge is %v, but %d connection(s) are open and %d accept(s) pending", g, truth-pend, pend),
+				s.witness(map[string]any{"gauge": g, "open": truth - pend, "pending": pend}))
+			s.gaugeOff = true
 		}
 
 		// mark the waiters
@@ -1005,6 +1107,7 @@ func (s *sched) settle() {
 			c.parkedAtQ = true
 		}
 		m.mu.Unlock()
+		s.prevParked = append(s.prevParked[:0], wOpen...)
 		if len(wOpen) > 0 {
 			s.feat.parked = true
 			r.Bucket("limiter_quiescent_points_with_parked_waiters", 1)
@@ -1059,6 +1162,17 @@ func (s *sched) settle() {
 			"must_proceed_if_accepting": want, "proceeded": 0,
 			"proceeded_after_diagnostic_broadcast": released,
 			"goroutine_state_of_waiters":           "parked in every one of 4 stop-the-world goroutine dumps taken over >= 9 ms, no event in between",
+		}
+		if released > 0 && s.relFailed > 0 && s.relOther == 0 {
+			wit["releases_of_this_round"] = "only pending accepts whose inner Accept failed"
+			r.Violation("limiter:waiter-left-parked-after-failed-pending-accept",
+				fmt.Sprintf("stop=%d resume=%d: the inner Accept of a pending accept failed and gave its slot back; open+pending is now %d (capacity %d) and the limiter is accepting, "+
+					"but %d accept(s) waiting on open listeners stay parked; %d of them proceed as soon as something broadcasts on the condition variable "+
+					"(the failed accept released its slot without waking the waiters)",
+					s.Stop, s.Resume, truth, capacity, len(wOpen), released),
+				s.witness(wit))
+			r.Bucket("limiter_lost_wakeups_observed", 1)
+			continue
 		}
 		if released > 0 {
 			r.Violation("limiter:waiter-left-parked-after-resume",
@@ -1119,7 +1233,8 @@ func (s *sched) nudge() {
 
 type view struct {
 	open, closed  []int
-	pendingL      []int // listener index per pending inner accept
+	pendingL      []int // listener index per pending inner accept, listener open
+	pendingClosed []int // the same, listener already closed (failure not delivered yet)
 	parked        int
 	activeAccepts int
 	openLs        []int
@@ -1146,8 +1261,15 @@ func (s *sched) view() (v view) {
 			continue
 		}
 		v.activeAccepts++
+		if c.innerBegin >= 0 && c.innerEnd >= 0 {
+			continue // on its way back
+		}
 		if c.innerBegin >= 0 {
-			v.pendingL = append(v.pendingL, c.L)
+			if s.ls[c.L].closed {
+				v.pendingClosed = append(v.pendingClosed, c.L)
+			} else {
+				v.pendingL = append(v.pendingL, c.L)
+			}
 		} else {
 			v.parked++
 		}
@@ -1182,6 +1304,7 @@ func (s *sched) randomRound() []action {
 	usedL := map[int]bool{}
 	accepts := v.activeAccepts
 	pend := append([]int(nil), v.pendingL...)
+	pendClosed := append([]int(nil), v.pendingClosed...)
 	for len(acts) < n {
 		x := rng.IntN(100)
 		switch {
@@ -1201,10 +1324,19 @@ func (s *sched) randomRound() []action {
 			accepts++
 			continue
 		case x < 75:
-		case x < 88: // dial
+		case x < 88: // dial, or let a pending inner accept fail
+			if len(pendClosed) > 0 && rng.IntN(2) == 0 {
+				acts = append(acts, action{Kind: "fail-pending", L: pendClosed[0]})
+				pendClosed = pendClosed[1:]
+				continue
+			}
 			if len(pend) > 0 {
 				i := rng.IntN(len(pend))
-				acts = append(acts, action{Kind: "dial", L: pend[i]})
+				kind := "dial"
+				if rng.IntN(5) == 0 {
+					kind = "fail-pending" // temporary error, the listener stays open
+				}
+				acts = append(acts, action{Kind: kind, L: pend[i]})
 				pend = append(pend[:i], pend[i+1:]...)
 				continue
 			}
@@ -1230,7 +1362,7 @@ func (s *sched) randomRound() []action {
 				if !usedL[l] && s.ls[l].closeBegunByPlan == false {
 					usedL[l] = true
 					s.ls[l].closeBegunByPlan = true
-					acts = append(acts, action{Kind: "listener-close", L: l})
+					acts = append(acts, action{Kind: "listener-close", L: l, FailLate: rng.IntN(3) == 0})
 					s.feat.lcloseMid = true
 					continue
 				}
@@ -1284,6 +1416,8 @@ func (s *sched) drain() {
 	for it := 0; it < 400 && !s.dead; it++ {
 		v := s.view()
 		switch {
+		case len(v.pendingClosed) > 0:
+			s.runRound(action{Kind: "fail-pending", L: v.pendingClosed[0]})
 		case len(v.pendingL) > 0:
 			s.runRound(action{Kind: "dial", L: v.pendingL[0]})
 		case len(v.open) > 0:
@@ -1292,6 +1426,65 @@ func (s *sched) drain() {
 			return
 		}
 	}
+}
+
+// failedPendingProbe is scripted, from the empty state: listener B holds
+// stop-1 connections, an accept of listener A is admitted and stays pending
+// inside A's wrapped listener (count == stop, stopped), two accepts park on B,
+// connections are closed until the count is resume+1 (still stopped).  Then
+// A's inner Accept fails: with a temporary error (A stays open), with
+// net.ErrClosed some time after A.Close() has returned (its broadcast came
+// before the slot was given back), or with net.ErrClosed during A.Close().  The
+// slot goes back, the count is at the resume threshold, the waiters on B must
+// get in.
+func (s *sched) failedPendingProbe() {
+	if s.dead {
+		return
+	}
+	a, b := s.addListener(), s.addListener()
+	variant := s.rng.IntN(3)
+	for i := 0; i < s.Stop-1 && !s.dead; i++ {
+		s.runRound(action{Kind: "accept", L: b.idx, PreDial: true})
+	}
+	s.runRound(action{Kind: "accept", L: a.idx})
+	if s.dead {
+		return
+	}
+	const nWait = 2
+	for i := 0; i < nWait; i++ {
+		s.m.dial(b)
+	}
+	for i := 0; i < nWait && !s.dead; i++ {
+		s.runRound(action{Kind: "accept", L: b.idx})
+	}
+	closeN := max(0, s.Stop-1-s.Resume)
+	for i := 0; i < closeN && !s.dead; i++ {
+		v := s.view()
+		if len(v.open) == 0 {
+			break
+		}
+		s.runRound(action{Kind: "close", Conn: v.open[0], Times: 1})
+	}
+	if s.dead {
+		return
+	}
+	v := s.view()
+	if len(v.pendingL) == 1 && v.pendingL[0] == a.idx && v.parked == nWait && len(v.open) == s.Stop-1-closeN {
+		s.r.Bucket("limiter_failed_pending_probes_set_up", 1)
+	} else {
+		// every deviation has already been reported by settle with its own key
+		s.r.Bucket("limiter_failed_pending_probe_unexpected_shape", 1)
+	}
+	switch variant {
+	case 0:
+		s.runRound(action{Kind: "fail-pending", L: a.idx})
+	case 1:
+		s.runRound(action{Kind: "listener-close", L: a.idx, FailLate: true})
+		s.runRound(action{Kind: "fail-pending", L: a.idx})
+	default:
+		s.runRound(action{Kind: "listener-close", L: a.idx})
+	}
+	s.drain()
 }
 
 // probe is the scripted end of every schedule: from the empty state exactly
@@ -1436,6 +1629,7 @@ func runSchedule(r *vkit.Run, idx int, lc *logCounter) {
 		s.runRound(s.randomRound()...)
 	}
 	s.drain()
+	s.failedPendingProbe()
 	s.probe()
 
 	class := fmt.Sprintf("stop%d/resume%d/k%d/%s", s.Stop, s.Resume, s.K, s.feat)
@@ -1906,7 +2100,9 @@ func TestCheck(t *testing.T) {
 	defer r.Finish()
 	r.Rule("limiter: schedule i uses (stop,resume) = i-th pair of {0<=resume<=stop, 1<=stop<=4} (14 pairs, cyclic), K=1+(i/14)%3 listeners sharing one real Limiter; " +
 		"6..17 seeded rounds of 1..4 concurrent actions (accept with/without a waiting client, dial, close x1..3 sequential or concurrent, close again later, " +
-		"listener close / double close in 40% of schedules, accept on a closed listener in 20%), each round followed by a quiescent point, then a drain and a scripted probe " +
+		"listener close / double close in 40% of schedules, accept on a closed listener in 20%; a pending inner accept may be dialled, fail with a temporary error, " +
+		"or fail with net.ErrClosed during or some time after its listener's Close), each round followed by a quiescent point, then a drain, a scripted failed-pending-accept probe " +
+		"(count at stop with one slot held by a pending accept of listener A, two accepts parked on listener B, A's inner Accept fails in one of the three ways and makes the limiter resume) and a scripted probe " +
 		"(stop+2 accepts from empty, listener close under waiters or closes one by one). distinct = (stop,resume,K,feature set observed); " +
 		"non-trivial = the stop threshold was reached AND an accept was parked in the limiter at a quiescent point. " +
 		"pipeline: proto x limit n in {1,2,5} x seeded (1..2 connections, burst 4n+8..4n+47, one write or one write per query); distinct = (proto,n,connections,write mode); " +
@@ -1914,7 +2110,7 @@ func TestCheck(t *testing.T) {
 	r.Assume("quiescent point = one stop-the-world goroutine dump shows every actor with a call in progress parked in a blocking primitive (sync.Cond.Wait, channel, mutex), " +
 		"all other calls have returned and the event log did not grow; the limiter has no timers or goroutines of its own")
 	r.Assume("stop=0 is outside the limiter's documented domain (New rejects it)")
-	r.Assume("the active_stream_conns gauge is the limiter's published value of open+pending")
+	r.Assume("the active_stream_conns gauge lies between the number of open connections and open+pending at quiescent points")
 
 	limiterMonitor(r)
 	pipelineMonitor(r)
@@ -1927,6 +2123,10 @@ func TestCheck(t *testing.T) {
 	r.Require("limiter_repeated_close_calls", int64(r.N(300, 3000)))
 	r.Require("limiter_pending_accepts_failed_by_listener_close", int64(r.N(40, 400)))
 	r.Require("limiter_concurrent_rounds", int64(r.N(500, 5000)))
+	r.Require("limiter_failed_pending_accept_resumed_limiter_with_waiters_elsewhere", int64(r.N(300, 3000)))
+	r.Require("limiter_failed_pending_accept_resumed_limiter_with_waiters_elsewhere_transient", int64(r.N(60, 600)))
+	r.Require("limiter_failed_pending_accept_resumed_limiter_with_waiters_elsewhere_closed-late", int64(r.N(60, 600)))
+	r.Require("limiter_failed_pending_accept_resumed_limiter_with_waiters_elsewhere_closed", int64(r.N(60, 600)))
 	r.Require("pipeline_cases_limit_reached", int64(r.N(12, 120)))
 	r.Require("pipeline_answers_received", int64(r.N(250, 2500)))
 }
